@@ -1,0 +1,76 @@
+//go:build verif
+
+package search
+
+import "fmt"
+
+// Verification hooks, compiled only with the "verif" build tag. They expose
+// read-only views of unexported state; nothing here is reachable in a normal
+// build.
+
+// VerifValidate checks the AVL invariants of the token list and of every
+// per-token value list: binary-search-tree order, parent pointers, and a
+// stored balance equal to the real height difference, within [-1, 1]. It
+// returns the number of values stored under each token.
+func (t *TreeIndex) VerifValidate() (map[string]int, error) {
+	counts := make(map[string]int)
+	if _, _, err := verifValidateNode(t.lists, t.lists.root, nil); err != nil {
+		return nil, fmt.Errorf("token list: %w", err)
+	}
+	var walk func(n *treeNode) error
+	walk = func(n *treeNode) error {
+		if n == nil {
+			return nil
+		}
+		if err := walk(n.left); err != nil {
+			return err
+		}
+		e := n.v.(treeIndexEntry)
+		_, c, err := verifValidateNode(e.list, e.list.root, nil)
+		if err != nil {
+			return fmt.Errorf("list for token %q: %w", e.token, err)
+		}
+		counts[e.token] = c
+		return walk(n.right)
+	}
+	if err := walk(t.lists.root); err != nil {
+		return nil, err
+	}
+	return counts, nil
+}
+
+func verifValidateNode(l *treeList, n *treeNode, parent *treeNode) (height int, count int, err error) {
+	if n == nil {
+		return 0, 0, nil
+	}
+	if n.parent != parent {
+		return 0, 0, fmt.Errorf("node %v: parent pointer does not point at its parent", l.values.Key(n.v))
+	}
+	if n.isDeleted() {
+		return 0, 0, fmt.Errorf("node %v: marked deleted but still linked into the tree", l.values.Key(n.v))
+	}
+	if n.left != nil && l.values.Compare(n.left.v, n.v) != ComparisonLess {
+		return 0, 0, fmt.Errorf("node %v: left child is not less", l.values.Key(n.v))
+	}
+	if n.right != nil && l.values.Compare(n.right.v, n.v) != ComparisonGreater {
+		return 0, 0, fmt.Errorf("node %v: right child is not greater", l.values.Key(n.v))
+	}
+	hl, cl, err := verifValidateNode(l, n.left, n)
+	if err != nil {
+		return 0, 0, err
+	}
+	hr, cr, err := verifValidateNode(l, n.right, n)
+	if err != nil {
+		return 0, 0, err
+	}
+	if d := hr - hl; d < -1 || d > 1 {
+		return 0, 0, fmt.Errorf("node %v: subtree heights differ by %d (left %d, right %d): not AVL-balanced", l.values.Key(n.v), d, hl, hr)
+	} else if int(n.balance) != d {
+		return 0, 0, fmt.Errorf("node %v: stored balance %d but real height difference is %d", l.values.Key(n.v), n.balance, d)
+	}
+	h := hl
+	if hr > h {
+		h = hr
+	}
+	return h + 1, cl + cr + 1, nil
+}
